@@ -369,17 +369,40 @@ func errDecimalCase(t *mon.T) {
 	ed := apd.MakeErrDecimal(ctx)
 	var mFlags apd.Condition
 	var mErr error
+	// Err() evaluates the accumulated flags against the *current* trap set of
+	// the current Context and remembers a non-nil verdict (sticky).
 	modelErr := func() bool {
 		if mErr != nil {
 			return true
 		}
-		_, e := mFlags.GoError(traps)
-		return e != nil
+		if _, e := mFlags.GoError(traps); e != nil {
+			mErr = e
+			return true
+		}
+		return false
 	}
 	n := 2 + r.Intn(11)
 	trace := []string{}
 	hadErrorThenCalls := false
 	for step := 0; step < n; step++ {
+		// the Context may legitimately be modified, or replaced, between calls
+		// (not during one): Err() must follow the current trap set
+		if step > 0 && r.Chance(1, 6) {
+			traps = randomTraps(r)
+			if r.Bool() {
+				traps |= singletons[4+r.Intn(3)] // Inexact, Subnormal or Rounded: likely among the accumulated flags
+			}
+			if r.Bool() {
+				ctx.Traps = traps
+			} else {
+				nc := *ctx
+				nc.Traps = traps
+				ctx = &nc
+				ed.Ctx = ctx
+			}
+			trace = append(trace, "traps:="+br.FlagNames(traps))
+			t.Count("errdecimal-traps-changed")
+		}
 		st := edSteps[r.Intn(len(edSteps))]
 		a, b, d := r.Intn(slots), r.Intn(slots), r.Intn(slots)
 		aux := int32(r.Range(-6, 6))
@@ -485,6 +508,7 @@ func runC03(r *mon.Run) {
 		r.Require("errdecimal/"+st.name, 100)
 	}
 	r.Require("errdecimal-error-then-calls", 500)
+	r.Require("errdecimal-traps-changed", 500)
 	r.Require("pinned", 18)
 	for _, op := range []string{"exp", "ln", "sqrt", "cbrt", "log10", "pow", "add", "quo", "reduce", "quantize"} {
 		r.Require("trap-fired/"+op, 100)
